@@ -46,7 +46,9 @@ func rep(c byte, n int) string {
 	return string(b)
 }
 
-func bits3(i int) string { return string([]byte{'0' + byte(i>>2&1), '0' + byte(i>>1&1), '0' + byte(i&1)}) }
+func bits3(i int) string {
+	return string([]byte{'0' + byte(i>>2&1), '0' + byte(i>>1&1), '0' + byte(i&1)})
+}
 
 // BorderBits lists the 14 synthetic border keys for key length n (n >= 3), as generatePrefixRange defines them.
 func BorderBits(n int) []string {
@@ -145,4 +147,6 @@ func NewUniverse(n int, thorough bool) *Universe {
 }
 
 // Reserved reports whether bits is a key the tree reserves (sentinels, root storage key).
-func (u *Universe) Reserved(bits string) bool { return bits == u.Min || bits == u.Max || bits == u.Root }
+func (u *Universe) Reserved(bits string) bool {
+	return bits == u.Min || bits == u.Max || bits == u.Root
+}
